@@ -700,6 +700,9 @@ func (env *SpecEnv) evalSel(x *ESel) (sval, error) {
 			case *types.Pointer, *types.Map, *types.Chan, *types.Slice, *types.Interface:
 				f.ctx.Fact(f.ctx.typeFacts(lv, ft, ""))
 			}
+			if nt, isNamed := elem.(*types.Named); isNamed && len(path) == 1 {
+				f.initOnlyFact(env.state(), v.t, nt, path[0], addr, lv, ft)
+			}
 		}
 		return env.sv(lv, ft), nil
 	}
